@@ -8,7 +8,7 @@ Lemma chk_all_C17 strict quit nosep w e : chk_all strict quit nosep w e = true -
 Proof.
   unfold chk_all, mchk_all. intros H. rewrite chk17_abs.
   apply andb_true_iff in H. destruct H as [H _]. apply andb_true_iff in H. destruct H as [H _].
-  apply andb_true_iff in H. destruct H as [H _]. exact H.
+  apply andb_true_iff in H. destruct H as [H _]. apply andb_true_iff in H. destruct H as [H _]. exact H.
 Qed.
 
 Theorem separator_every_draw specs specl typed quit run_empty fuel acts :
